@@ -14,23 +14,29 @@ CONSTANTS SMode, Shard, NShards, MutEvery
 VARIABLE sc
 svars == <<sc>>
 
-MyTypes == {ti \in DOMAIN Types : ti % NShards = Shard}
+\* SMode "file-conforming" / "file-mutants": the types are not the catalogue's but random ones written by the Go side
+\* (vh schema-gen), as JSON records of the shape of the type records of Schema.tla; everything else is the same.
+FromFile == SMode \in {"file-conforming", "file-mutants"}
+FileTypes == LET raw == ndJsonDeserialize("trace.ndjson") IN [i \in DOMAIN raw |-> raw[i].ty]
+TypesSel == IF FromFile THEN FileTypes ELSE Types
+MyTypes == {ti \in DOMAIN TypesSel : ti % NShards = Shard}
 
 \* (operators with a dummy parameter: TLC evaluates zero-arity constant definitions eagerly at start-up)
 Conforming(dummy) ==
-  UNION {{[ti |-> ti, level |-> "both", input |-> Feed(Types[ti], tv), tv |-> tv] : tv \in Inh(Types[ti])} : ti \in MyTypes}
+  UNION {{[ti |-> ti, level |-> "both", input |-> Feed(TypesSel[ti], tv), tv |-> tv]
+            : tv \in {x \in Inh(TypesSel[ti]) : ~FromFile \/ VWeight(x) % MutEvery = 0}} : ti \in MyTypes}
 
 Mutants(dummy) ==
   UNION {UNION {
-     {[ti |-> ti, level |-> "type", input |-> m, tv |-> tv] : m \in Mut(Feed(Types[ti], tv))}
-     \cup {[ti |-> ti, level |-> "repr", input |-> m, tv |-> tv] : m \in Mut(ReprOf(Types[ti], tv))}
-       : tv \in {x \in Inh(Types[ti]) : VWeight(x) % MutEvery = 0}} : ti \in MyTypes}
+     {[ti |-> ti, level |-> "type", input |-> m, tv |-> tv] : m \in Mut(Feed(TypesSel[ti], tv))}
+     \cup {[ti |-> ti, level |-> "repr", input |-> m, tv |-> tv] : m \in Mut(ReprOf(TypesSel[ti], tv))}
+       : tv \in {x \in Inh(TypesSel[ti]) : VWeight(x) % MutEvery = 0}} : ti \in MyTypes}
 
-Init == sc \in (IF SMode = "conforming" THEN Conforming(0) ELSE Mutants(0))
+Init == sc \in (IF SMode \in {"conforming", "file-conforming"} THEN Conforming(0) ELSE Mutants(0))
 Next == UNCHANGED sc
 Spec == Init /\ [][Next]_svars
 
-T0 == Types[sc.ti]
+T0 == TypesSel[sc.ti]
 
 \* B3: the three mappings agree with each other on every inhabitant
 ReprRoundTrips == sc.level = "both" => FromRepr(T0, ReprOf(T0, sc.tv)) = Res(TRUE, sc.tv)
